@@ -38,6 +38,9 @@ def filter_map_axioms(seq, rs, cid, P, f):
 class CallMixin:
     def e_Call(self, st, node):
         text = dotted(node.func)
+        if (text is None and isinstance(node.func, ast.Attribute) and isinstance(node.func.value, ast.Call)
+                and isinstance(node.func.value.func, ast.Name) and node.func.value.func.id == "super" and not node.func.value.args):
+            text = "super()." + node.func.attr
         handler = None
         recv_node = None
         if text is not None:
@@ -47,6 +50,8 @@ class CallMixin:
                 handler = self.registry.calls.get(text)
             if handler is None and root not in st.vars and "." not in text:
                 handler = getattr(self, "b_" + text, None)
+        if handler is None and text is not None and text.startswith("super()."):
+            raise Unsupported("call of %s has no handler in the sidecar spec" % text)
         if handler is None and isinstance(node.func, ast.Attribute):
             recv_node = node.func.value
         if handler is None and recv_node is None:
@@ -107,7 +112,12 @@ class CallMixin:
         o, c = args
         orf = self.to_ref(st, o)
         classes = list(c.py) if (c.kind == "static" and isinstance(c.py, tuple)) else [c]
-        res = z3.Or([ISINST(orf, self.to_ref(st, x)) for x in classes])
+
+        def one(x):
+            if x.t is not None and x.t.eq(clsref("list")):
+                return TY(orf) == T_LIST  # the type tag of allocated objects is exact
+            return ISINST(orf, self.to_ref(st, x))
+        res = z3.Or([one(x) for x in classes])
         if not any(x.t.eq(clsref("object")) for x in classes if x.t is not None):
             st.assume(z3.Implies(res, orf != NONE))  # None is an instance of NoneType and object only
         return [(st, vbool(res))]
@@ -320,6 +330,9 @@ class CallMixin:
 
     def bind_target(self, st, target, src, j):
         """env for comprehension target when the source element has index j."""
+        h = self.registry.comp_source_hook(self, st, target, src, j)
+        if h is not None:
+            return h
         if src.kind == "ref" and src.py == "dict_items":
             k = st.get("dord", src.t)[j]
             v = z3.Select(st.get("dval", src.t), k)
